@@ -259,7 +259,7 @@ LAZY_CELLS = {
         'this->m_pNames': lambda fn, r: r['k'] == 'CXXNewExpr' and 'NameTable' in (r.get('aty') or r.get('t') or ''),
     },
     'graphite2::Font::advance': {
-        'this->m_advances[': lambda fn, r: r['k'] == 'CallExpr' and not r.get('fq') and 'glyph_advance_x' in fn.render(r),
+        'this->m_advances[': lambda fn, r: r['k'] == 'CallExpr' and not r.get('fq') and 'glyph_advance_x' in fn.render(r, resolve=True),
     },
 }
 
